@@ -46,6 +46,19 @@ Section C15.
                 st_best val (RUN (fresh val cfg d) h) = Some f.
   Proof. exact (file_is_best_evaluated val show read os_replace os_replace_is_atomic the_code the_code_ok cfg). Qed.
 
+  (* T15a'.  The same from ANY earlier state s0 of the object -- a stale marker left by a previous run,
+     a file replaced or removed by the user, the file of another name after the model was renamed --
+     as soon as estimate() or quick_estimate() starts: both reset the marker. *)
+  Theorem T15a_file_is_best_after_any_start : forall s0 o h,
+    o = EstimateStart \/ o = QuickStart ->
+    (st_other val s0 = true -> st_susp val s0 = true) ->
+    cf_save val cfg = true -> Forall (f_not_nan val) h ->
+    fst (fold_left (spec_step val cfg) h ([], st_susp val s0)) <> [] ->
+    exists x f, best_latest val (fst (fold_left (spec_step val cfg) h ([], st_susp val s0))) x f /\
+                st_fs val (RUN (STEP s0 o) h) FILE = Some (CONTENT x) /\
+                st_best val (RUN (STEP s0 o) h) = Some f.
+  Proof. exact (file_is_best_after_any_start val show read os_replace os_replace_is_atomic the_code the_code_ok cfg). Qed.
+
   (* shape of that content: one line `name = str(value)` per free parameter, in name order *)
   Theorem T15a_file_shape : forall x, len_ok val cfg x = true ->
     file_lines val show the_code cfg x
@@ -137,6 +150,7 @@ Section C15.
 End C15.
 
 Print Assumptions T15a_file_is_best_evaluated.
+Print Assumptions T15a_file_is_best_after_any_start.
 Print Assumptions T15a_file_shape.
 Print Assumptions T15b_roundtrip_bits.
 Print Assumptions T15c_restart_not_below_start.
